@@ -18,6 +18,7 @@ import (
 	"bytes"
 	"context"
 	"fmt"
+	"strings"
 	"time"
 
 	"github.com/sdcio/cache/pkg/cache"
@@ -25,6 +26,29 @@ import (
 	sdcpb "github.com/sdcio/sdc-protos/sdcpb"
 	"google.golang.org/protobuf/proto"
 )
+
+// pathDelim is the delimiter the cache joins the elements of a path with to form its keys
+const pathDelim = ","
+
+// belowAnyPath reports whether the given entry path is one of the requested paths or located below one of them.
+// The cache matches the requested paths as plain prefixes of its keys, a read of interface,eth1 hence also
+// delivers the entries of interface,eth10. These are not part of what was asked for.
+func belowAnyPath(entry []string, paths [][]string) bool {
+	if len(paths) == 0 {
+		return true
+	}
+	je := strings.Join(entry, pathDelim)
+	for _, p := range paths {
+		if len(p) == 0 {
+			return true
+		}
+		jp := strings.Join(p, pathDelim)
+		if je == jp || strings.HasPrefix(je, jp+pathDelim) {
+			return true
+		}
+	}
+	return false
+}
 
 type Client interface {
 	// Create a cache
